@@ -76,7 +76,15 @@ type State struct {
 	TCP      map[string]TCPSpec     `json:"tcp,omitempty"`
 	Default  string                 `json:"default,omitempty"`
 	Global   int                    `json:"global,omitempty"`
+	// Resp: the HAProxy based custom responses of the global config (http-response-<code>, written
+	// to <cfgdir>/errorfiles/<code>.http and named by `errorfile` lines of the main file):
+	// 0 none, 1 and 2 = 403 and 503 with body version 1 / 2, 3 = 503 only, body version 3.
+	// Part of the global config: it only changes at a full sync.
+	Resp int `json:"resp,omitempty"`
 }
+
+// GlobalVer is the number the global config of a state is known by (maxconn = 2000 + GlobalVer).
+func (s State) GlobalVer() int { return s.Global*4 + s.Resp%4 }
 
 // Step is one reconciliation: a sync (full or partial) to State, then an update.
 type Step struct {
@@ -87,7 +95,7 @@ type Step struct {
 
 // Clone copies a state deeply.
 func (s State) Clone() State {
-	n := State{Hosts: map[string]HostSpec{}, Backends: map[string]BackendSpec{}, TCP: map[string]TCPSpec{}, Default: s.Default, Global: s.Global}
+	n := State{Hosts: map[string]HostSpec{}, Backends: map[string]BackendSpec{}, TCP: map[string]TCPSpec{}, Default: s.Default, Global: s.Global, Resp: s.Resp}
 	for k, v := range s.Hosts {
 		v.Paths = append([]PathSpec(nil), v.Paths...)
 		n.Hosts[k] = v
@@ -330,7 +338,7 @@ func Plan(prev State, st Step, in *Interner) []Op {
 		for t := range cur.TCP {
 			tcpToAdd[t] = true
 		}
-		ops = append(ops, Op{Kind: "global", Ver: cur.Global})
+		ops = append(ops, Op{Kind: "global", Ver: cur.GlobalVer()})
 	} else {
 		dh, db, dt := map[string]bool{}, map[string]bool{}, map[string]bool{}
 		for _, d := range st.Dirty {
@@ -595,6 +603,18 @@ func configGlobal(g *hatypes.Global, ver int) {
 	g.Timeout.Server = "50s"
 	g.Timeout.Stop = "15m"
 	g.UseHTX = true
+	g.CustomHTTPHAResponses = nil
+	resp := func(code int, reason string) hatypes.HTTPResponse {
+		return hatypes.HTTPResponse{Name: fmt.Sprint(code), StatusCode: code, StatusReason: reason,
+			Headers: []hatypes.HTTPHeader{{Name: "content-type", Value: "text/plain"}},
+			Body:    []string{fmt.Sprintf("custom response version %d", ver%4)}}
+	}
+	switch ver % 4 {
+	case 1, 2:
+		g.CustomHTTPHAResponses = []hatypes.HTTPResponse{resp(403, "Forbidden"), resp(503, "Service Unavailable")}
+	case 3:
+		g.CustomHTTPHAResponses = []hatypes.HTTPResponse{resp(503, "Service Unavailable")}
+	}
 }
 
 // DefaultCrtFile is the default certificate of the frontend (a file that exists is only needed
@@ -743,6 +763,7 @@ type Disk struct {
 	TCPPorts   []string            // ports with a frontend in the main file
 	TCPCrt     map[string][]string // port -> lines of the referenced crt-list
 	MapFiles   map[string][]string // every referenced map / list file -> its lines, sorted
+	ErrorFiles map[string]string   // code of every `errorfile` line of the main file -> content of <cfgdir>/errorfiles/<code>.http
 	Missing    []string            // referenced files that do not exist
 	MainRest   string              // main file without backend sections (text, for the fresh comparison)
 }
@@ -782,7 +803,7 @@ func readLines(path string) ([]string, bool) {
 
 // ReadDisk projects the files under the env's directories.
 func (e *Env) ReadDisk() Disk {
-	d := Disk{MapFiles: map[string][]string{}, RootRedir: map[string]int{}, BackMaps: map[string][]string{}, BackMapRef: map[string]bool{}, TCPMaps: map[string][]string{}, TCPCrt: map[string][]string{}}
+	d := Disk{ErrorFiles: map[string]string{}, MapFiles: map[string][]string{}, RootRedir: map[string]int{}, BackMaps: map[string][]string{}, BackMapRef: map[string]bool{}, TCPMaps: map[string][]string{}, TCPCrt: map[string][]string{}}
 	names, _ := filepath.Glob(filepath.Join(e.CfgDir, "*.cfg"))
 	sort.Strings(names)
 	refs := map[string]bool{}
@@ -857,6 +878,14 @@ func (e *Env) ReadDisk() Disk {
 				}
 				body = append(body, t)
 				continue
+			}
+			if f := strings.Fields(t); fo.Shard < 0 && len(f) == 3 && f[0] == "errorfile" && strings.Contains(f[2], "/errorfiles/") {
+				// the template names <LocalFSPrefix>/etc/haproxy/errorfiles, the writer uses the cfg dir
+				if b, err := readFile(filepath.Join(e.CfgDir, "errorfiles", filepath.Base(f[2]))); err == nil {
+					d.ErrorFiles[f[1]] = string(b)
+				} else {
+					d.Missing = append(d.Missing, f[2])
+				}
 			}
 			if strings.HasPrefix(t, "default_backend ") && (curFront == "_front_http" || curFront == "_front__http") {
 				d.DefaultBE = strings.TrimPrefix(t, "default_backend ")
@@ -988,6 +1017,14 @@ func (d Disk) CanonNS() string {
 	return c.Canon()
 }
 
+// CanonNoResp is Canon without the custom response files (errorfiles/<code>.http), which the
+// Coq model does not have.
+func (d Disk) CanonNoResp() string {
+	c := d
+	c.ErrorFiles = nil
+	return c.Canon()
+}
+
 // Canon is the canonical text of everything a loaded configuration means (used to
 // compare an incrementally maintained directory with a freshly written one).
 func (d Disk) Canon() string {
@@ -1019,6 +1056,9 @@ func (d Disk) Canon() string {
 	}
 	for _, k := range sortedKeys(d.MapFiles) {
 		fmt.Fprintf(&sb, "file %s=%v\n", k, d.MapFiles[k])
+	}
+	for _, k := range sortedKeys(d.ErrorFiles) {
+		fmt.Fprintf(&sb, "errorfile %s=%q\n", k, d.ErrorFiles[k])
 	}
 	fmt.Fprintf(&sb, "missing=%v\n", d.Missing)
 	return sb.String()
